@@ -819,6 +819,10 @@ fn sweep_buffer_boundaries(fmt: Format, probes: &[&str], thorough: bool) -> Acc 
                     format!("p af 2\n{}\n1 2\n", x),
                     format!("p af 2\n1 2\n{}\n", x),
                     format!("p af 2\n1 {}2\n", " ".repeat(len)),
+                    // an empty line, then a long comment, then more content (ill-formed: content after a blank line)
+                    format!("p af 2\n1 2\n\n# {}\n2 1\n", x),
+                    format!("p af 2\n\n# {}\n1 2\n", x),
+                    format!("p af 2\n1 2\n# {}\n\n# c\n2 1\n", x),
                 ],
                 Format::Apx => vec![
                     format!("arg(a).\narg(b).\n% {}\natt(a,b).\n", x),
@@ -827,6 +831,7 @@ fn sweep_buffer_boundaries(fmt: Format, probes: &[&str], thorough: bool) -> Acc 
                     format!("arg(a).\narg(b).\natt(a,b).\n% {}", x),
                     format!("arg(a).\n{}\narg(b).\n", x),
                     format!("arg(a).\narg(b).\natt(a,b).\n{}.\n", x),
+                    format!("arg(a).\narg(b).\n\n% {}\natt(a,b).\n", x),
                 ],
             };
             for f in &files {
@@ -1030,7 +1035,7 @@ pub fn run(tier: Tier) -> i32 {
         run_one(format!("{}: every well-formed file of U(<={}) in a menu of layouts", fmt.name(), 3), sweep_grammar(fmt, 3, probes), &mut total);
         run_one(format!("{}: one line of every length <= 130+ with one character of each UTF-8 width at every offset, in 7 syntactic positions", fmt.name()), sweep_long_lines(fmt, probes), &mut total);
         run_one(format!("{}: well-formed files of 10 structured families with 12 ... {} arguments (short and 20+-character labels / interleaved comments) and their line edits", fmt.name(), if thorough { 3000 } else { 1100 }), sweep_big_files(fmt, probes, thorough), &mut total);
-        run_one(format!("{}: lines of length 2^k-1, 2^k, 2^k+1 for k = 7..17{} in 6-7 syntactic positions, followed by further declarations", fmt.name(), if thorough { " and 20" } else { "" }), sweep_buffer_boundaries(fmt, probes, thorough), &mut total);
+        run_one(format!("{}: lines of length 2^k-1, 2^k, 2^k+1 for k = 7..17{} in 7-10 syntactic positions (incl. after an empty line), followed by further declarations", fmt.name(), if thorough { " and 20" } else { "" }), sweep_buffer_boundaries(fmt, probes, thorough), &mut total);
         let kc = if thorough { 3 } else { 2 };
         run_one(format!("{}: `crustabri check` as a process on the corpus, its line edits and all line sequences of length <= {}", fmt.name(), kc), sweep_check_command(fmt, lines, kc), &mut total);
     }
